@@ -6,7 +6,7 @@ Require Import Verif.gen.EventualGen Verif.lib.Eventual.
 Local Open Scope Z_scope.
 
 Definition good_cfg : evcfg := {|
-  c_pos := Tail; c_arms := true; c_clears := true; c_order := Forward; c_catch := true;
+  c_pos := Tail; c_arms := true; c_clears := true; c_order := Forward; c_catch := CatchAll;
   c_fire := FireWhileEmpty; c_marks := true; c_guard := FlushWhenIdle |}.
 
 (* THE TIE: the facts read from the source are the ones the proofs below rely on.  An edit of
@@ -137,7 +137,7 @@ Proof.
     repeat (split; [first [reflexivity | auto]|]). intros; constructor.
   - destruct (run_acts good_cfg (Some rest) st (sacts s)) as [st1 t1] eqn:E1.
     apply run_acts_good in E1 as (A1 & A2 & A3 & A4 & A5 & _).
-    cbn [c_catch good_cfg].
+    unfold catches. cbn [c_catch good_cfg].
     destruct (run_batch good_cfg st1 rest) as [[st2 t2] ok2] eqn:E2.
     apply IH in E2 as (B0 & B1 & B2 & B3 & B4 & B5).
     destruct (sraises s); intros H; inversion H; subst; clear H;
@@ -313,7 +313,7 @@ Qed.
 (* D11, for the record: the guard `if not self._events` of the earlier code admits a notification
    while a later callable of the same batch has not run *)
 Definition d11_witness : list op :=
-  [OAct (AEnq (Sc 1 [AFlush 7 []] false)); OAct (AEnq (Sc 2 [] false)); OTurn].
+  [OAct (AEnq (Sc 1 [AFlush 7 []] RNo)); OAct (AEnq (Sc 2 [] RNo)); OTurn].
 
 Lemma ev_flush_old_guard_refuted :
   exists ops st t, run old_cfg q0 ops = (st, t) /\ In (FlushFired 7 1%nat true) t.
@@ -326,7 +326,7 @@ Proof. vm_compute. reflexivity. Qed.
 (* the second repair, for the record: with `if not self._events: fire every observer` a later observer is
    notified although the callback of an earlier one has just enqueued work *)
 Definition d17_witness : list op :=
-  [OAct (AEnq (Sc 1 [] false)); OAct (AFlush 7 [Sc 2 [] false]); OAct (AFlush 8 []); OTurn].
+  [OAct (AEnq (Sc 1 [] RNo)); OAct (AFlush 7 [Sc 2 [] RNo]); OAct (AFlush 8 []); OTurn].
 
 Lemma ev_flush_old_loop_refuted :
   exists ops st t, run old2_cfg q0 ops = (st, t) /\ In (FlushFired 8 1%nat false) t.
@@ -339,10 +339,22 @@ Proof. vm_compute. reflexivity. Qed.
 
 (* non-vacuity: a program with re-entrant enqueueing, a raising callable and flushes *)
 Example ev_example :
-  let ops := [OAct (AEnq (Sc 1 [AEnq (Sc 3 [] false); AFlush 8 [Sc 4 [] true]] true)); OAct (AFlush 9 []);
-              OAct (AEnq (Sc 2 [] false)); OTurn; OTurn; OTurn; OAct (AFlush 10 [])] in
+  let ops := [OAct (AEnq (Sc 1 [AEnq (Sc 3 [] RNo); AFlush 8 [Sc 4 [] RBase]] RExc)); OAct (AFlush 9 []);
+              OAct (AEnq (Sc 2 [] RNo)); OTurn; OTurn; OTurn; OAct (AFlush 10 [])] in
   snd (run src_cfg q0 ops) =
     [Sub 1; Sub 2; Ran 1; Sub 3; Raised 1; Ran 2; Ran 3; FlushFired 9 0%nat false; FlushFired 8 0%nat false; Sub 4;
      Ran 4; Raised 4; FlushFired 10 0%nat false]
   /\ events (fst (run src_cfg q0 ops)) = [].
 Proof. vm_compute. split; reflexivity. Qed.
+
+(* `except Exception:` (seeded change C17-r2s1), for the record: a callable that raises a BaseException which is not
+   an Exception ends the turn, and the callables queued behind it never run *)
+Lemma ev_isolation_exc_only_refuted :
+  let ops := [OAct (AEnq (Sc 1 [] RNo)); OAct (AEnq (Sc 2 [] RBase)); OAct (AEnq (Sc 3 [] RNo)); OTurn; OTurn] in
+  rans (snd (run exc_only_cfg q0 ops)) = [1; 2] /\ in_turn (fst (run exc_only_cfg q0 ops)) = true.
+Proof. vm_compute. split; reflexivity. Qed.
+
+Example ev_isolation_base_now :
+  let ops := [OAct (AEnq (Sc 1 [] RNo)); OAct (AEnq (Sc 2 [] RBase)); OAct (AEnq (Sc 3 [] RNo)); OTurn; OTurn] in
+  snd (run src_cfg q0 ops) = [Sub 1; Sub 2; Sub 3; Ran 1; Ran 2; Raised 2; Ran 3].
+Proof. vm_compute. reflexivity. Qed.
